@@ -15,13 +15,17 @@ import common
 
 RULE = ('nested dictionaries: depth 0..4, 0..4 entries per level, keys drawn from an alphabet with shared '
         'prefixes (a, ab, ac, abc), the empty string, unicode (é λ 雪 🙂), spaces and punctuation; empty '
-        'sub-dictionaries at every depth; separators & / . | λ; a separate stream of keys containing the '
+        'sub-dictionaries at every depth; one-character separators & / . | λ (model correspondence); multi-character '
+        'separators :: -- /. ab aa && .:. aba λ雪 (real code only: keys sharing no character with the separator must '
+        'round-trip; keys built from parts of the separator, e.g. a: with ::, are measured and a wrong round trip is '
+        'reported as multichar-separator-overlap, fixed corner cases first); a separate stream of keys containing the '
         'separator, of multi-dicts (duplicate keys through a dict subclass) and of arbitrary flat inputs '
         'for unflatten (conflicting paths in both orders).  pytrees: 0..5 leaves, ranks 1..4, sizes 0..4 '
         'along the axis, every axis position (positive and negative).  spectral: pairs of small grids '
         '(both transform implementations, equal / larger / mixed truncations, different verticals).  '
         'dims: layers 1..5, time / sample / realization / user coordinates incl. collisions with the level axis and '
-        'grids whose nodal shape equals the modal shape.  xarray: random '
+        'grids whose nodal shape equals the modal shape (fixed corner case M=5, L=7, 10x7 nodes, fast layout in every '
+        'run; wrong names are measured on the real code and reported as modal-equals-nodal-shape).  xarray: random '
         'coordinate systems (3 spacings, offsets, radii, sigma / layer / pressure verticals), tracer sets '
         'with random names, NaN / -0.0 / inf / denormal payloads.  A case is non-trivial when the structure '
         'has >= 2 entries or an empty branch, or when it is a validation case; distinct = distinct '
@@ -161,22 +165,23 @@ class Counter:
     return self.n
 
 
-def gen_dict(rng, sep, depth=0, cnt=None, max_depth=4, bad_sep=False):
+def gen_dict(rng, sep, depth=0, cnt=None, max_depth=4, bad_sep=False, alphabet=None):
   cnt = cnt or Counter()
   n = int(rng.choice([0, 1, 2, 2, 3, 4])) if depth else int(rng.choice([0, 1, 2, 3, 3, 4, 5]))
-  alphabet = [k for k in ALPHABET if sep not in k]
+  given = alphabet
+  alphabet = [k for k in (ALPHABET if given is None else given) if sep not in k]
   keys = []
   for _ in range(n):
     k = str(rng.choice(alphabet))
     if rng.random() < 0.15:
       k = k + str(rng.choice(alphabet))
-    if k not in keys:
+    if k not in keys and sep not in k:   # a concatenation may contain a multi-character separator
       keys.append(k)
   d = {}
   for k in keys:
     r = rng.random()
     if depth < max_depth and r < 0.35:
-      d[k] = gen_dict(rng, sep, depth + 1, cnt, max_depth)
+      d[k] = gen_dict(rng, sep, depth + 1, cnt, max_depth, alphabet=given)
     elif r < 0.5:
       d[k] = {}
     else:
@@ -471,10 +476,76 @@ def run(ctx: common.Ctx):
              f"flatten_dict({w3}) -> {st} {val}: sub-dictionary under the empty key merged into its parent", dict(d=w3))
   add('tree flattenold 38 ' + enc_dict(w3), 'model of the pre-fix flatten_dict (empty prefix)', dict(d=w3),
       f"ok {enc_items({'a': 1})} _")
-  # domain statements (not failures): multi-character separators and NUL-suffixed keys
-  st, val = real(lambda: pu.unflatten_dict(*pu.flatten_dict({'a': {'b': 1}}, sep='aa'), sep='aa'))
-  ctx.notes.append(f"domain: multi-character sep is outside the theorem; flatten/unflatten of {{'a': {{'b': 1}}}} with "
-                   f"sep='aa' gives {val!r} ({st})")
+  # ---- multi-character separators (`sep: str` of the API; the theorems are about a one-character separator, so
+  # there is no model line here: the real code is compared with the independent oracle and the round trip is
+  # evaluated directly).
+  #  * keys that share no character with sep: the joined string splits back uniquely (a match of sep can only start
+  #    inside an inserted separator, and the leftmost scan of str.split finds the inserted ones one after the other),
+  #    so the round trip is expected (ordinary keys);
+  #  * keys that avoid sep as a substring but share characters with it (a key ending / starting with a part of sep,
+  #    'a:' with '::'): flatten_dict accepts them and the joined string may split elsewhere.  Whenever the real
+  #    code then returns a different dictionary (or unflatten_dict raises) the failure is reported under the
+  #    structural key `multichar-separator-overlap` (known finding); nothing is reported when the real code
+  #    round-trips or refuses the input in flatten_dict.
+  def all_keys(d):
+    out = []
+    for k, v in d.items():
+      out.append(k)
+      if isinstance(v, dict):
+        out += all_keys(v)
+    return out
+
+  def multichar_case(d, sep, tag):
+    keys = all_keys(d)
+    assert len(sep) >= 2 and all(sep not in k for k in keys)
+    disjoint = not any(set(k) & set(sep) for k in keys)
+    inp = dict(d=d, sep=sep, stream='multichar:' + tag, keys_share_characters_with_sep=not disjoint)
+    ctx.case(('flatten-multichar', enc_dict(d), sep), nontrivial=nontrivial_dict(d) or not disjoint,
+             sample=dict(op='flatten_dict (multi-character sep)', d=d, sep=sep))
+    st, val = real(lambda: pu.flatten_dict(d, sep=sep))
+    ctx.dist[f'flatten:multichar:{"disjoint" if disjoint else "overlap"}:{st}'] += 1
+    if disjoint:
+      ctx.expect(st == 'ok', 'flatten-multichar-accepts', f'flatten_dict raised ({st}) although no key shares a '
+                 'character with the separator', inp)
+    if st != 'ok':
+      return   # overlap: colliding flattened keys are refused ('duplicate keys'), not mislabelled
+    flat, empties = val
+    rf, re_ = ref_flatten(d, sep)
+    ctx.expect(flat == rf and sorted(empties) == sorted(re_), 'flatten-oracle',
+               f'flatten_dict differs from the independent oracle: {flat!r} {empties!r}', inp)
+    st2, back = real(lambda: pu.unflatten_dict(flat, empties, sep=sep))
+    same = st2 == 'ok' and back == d
+    if disjoint:
+      ctx.expect(same, 'flatten-roundtrip-multichar',
+                 f'unflatten_dict(*flatten_dict(d, sep), sep) != d although no key shares a character with sep: '
+                 f'flat={flat!r} empties={empties!r} got {back!r} ({st2})', inp)
+    elif not same:
+      ctx.dist['flatten:multichar:overlap:roundtrip-fails'] += 1
+      ctx.fail('multichar-separator-overlap',
+               f'flatten_dict({d!r}, sep={sep!r}) = ({flat!r}, {tuple(empties)!r}); unflatten_dict(…, sep={sep!r}) '
+               + (f'returns {back!r} != d' if st2 == 'ok' else f'raises ({st2})') +
+               ': no key contains the separator, but a key ends / starts with a part of it', inp)
+    else:
+      ctx.dist['flatten:multichar:overlap:roundtrip-holds'] += 1
+
+  MSEPS = ['::', '--', '/.', 'ab', 'aa', '&&', '.:.', 'aba', 'λ雪', '::', '&&']
+  # fixed corner cases first: the review's input is reported in every run as long as the real code mislabels
+  for d, sep in [({'a:': {'b': 1}}, '::'), ({'a': {':b': 1}}, '::'), ({'a': {'b': 1}}, 'aa'), ({'x': {'-': {}}}, '--'),
+                 ({'a:': {}}, '::'), ({'/': {'.': 1, '': 2}}, '/.'), ({'λ': {'雪': {}, 'x': 1}}, 'λ雪')]:
+    multichar_case(d, sep, 'overlap-corner')
+  for d, sep in [({'a': {'b': 1, '': {}}, '': {'c': {}, '': {'': 3}}}, '::'), ({}, '--'), ({'': {}}, 'ab'),
+                 ({'x': {'y': {'z': 1}}, 'xy': {'z': 2}, 'x y': {}}, 'aa'), ({'雪': {'🙂': {}, 'é': 4}}, '/.')]:
+    multichar_case(d, sep, 'disjoint-corner')
+  for i in range(ctx.n(80, 800)):
+    sep = str(rng.choice(MSEPS))
+    if i % 2 == 0:   # keys sharing no character with sep
+      alpha = [k for k in ALPHABET if not (set(k) & set(sep))]
+      multichar_case(gen_dict(rng, sep, max_depth=int(rng.choice([1, 2, 3])), alphabet=alpha), sep, 'disjoint')
+    else:            # keys built from parts of sep (never sep itself as a substring)
+      parts = sorted({sep[:j] for j in range(1, len(sep))} | {sep[j:] for j in range(1, len(sep))})
+      alpha = parts + ['x' + q for q in parts] + [q + 'y' for q in parts] + ['', 'x', 'y', 'xy']
+      multichar_case(gen_dict(rng, sep, max_depth=int(rng.choice([1, 2, 3])), alphabet=alpha), sep, 'overlap')
+  # domain statement (not a failure): NUL-suffixed keys
   st, val = real(lambda: pu.flatten_dict({'a': 1, 'a\x00': 2}))
   ctx.notes.append("domain: keys differing only by trailing NUL characters are outside the generator "
                    f"(numpy strips them in np.unique): flatten_dict({{'a':1,'a\\x00':2}}) -> {st}")
@@ -788,18 +859,43 @@ def run(ctx: common.Ctx):
         impl_s = st
       add(f'tree dimstable 0 {cfg_line(coords, addl, times, samples)}', '_infer_dims_shape_and_coords', inp, impl_s)
 
+  MODAL_NAMES, NODAL_NAMES = ('longitudinal_mode', 'total_wavenumber'), ('lon', 'lat')
+
+  def want_dims(kind, layers, pn):
+    """the intended names of a variable of this kind (None: no claim)."""
+    return {'modal3d': pn + ('level',) + MODAL_NAMES, 'nodal3d': pn + ('level',) + NODAL_NAMES,
+            'surf_modal': pn + ('level' if layers == 1 else 'surface',) + MODAL_NAMES,
+            'surf_nodal': pn + ('surface',) + NODAL_NAMES, 'nodal2d': pn + NODAL_NAMES, 'modal2d': pn + MODAL_NAMES,
+            'scalar': pn, 'ens_nodal': pn + ('ens',) + NODAL_NAMES}.get(kind)
+
+  def grid_args(g):
+    return (f'Grid(longitude_wavenumbers={g.longitude_wavenumbers}, total_wavenumbers={g.total_wavenumbers}, '
+            f'longitude_nodes={g.longitude_nodes}, latitude_nodes={g.latitude_nodes}, '
+            f'latitude_spacing={g.latitude_spacing!r}, spherical_harmonics_impl={g.spherical_harmonics_impl.__name__})')
+
+  def modal_eq_nodal_msg(g, layers, kind, shape, got, want, st):
+    return (f'modal_shape == nodal_shape == {tuple(g.modal_shape)} for {grid_args(g)}, layers={layers}: data_to_xarray '
+            f'gives {kind} (array shape {tuple(shape)}) ' +
+            (f'the dimension names {got}' if got is not None else f'no dataset ({st})') + f', expected {want} '
+            '(axes are matched by shape, the later table entry wins)')
+
   # data_to_xarray: names of every kind of variable (model `dims` includes the default `surface` coordinate)
   single_layer_hit = []
+  modal_eq_nodal_hit = []
   for i in range(ctx.n(50, 500)):
     with ctx.impl('dims-exception', dict(iteration=i, seed=ctx.seed)):
       impl = impls[int(rng.integers(2))]
       M = int(rng.integers(2, 5))
       grid = small_grid(M, M + 1, impl)
-      ambiguous = i % 6 == 5
-      if ambiguous:   # nodal shape == modal shape (characterised by inferDims_modal_eq_nodal_collision)
+      if i % 6 == 5:   # nodal shape == modal shape (characterised by inferDims_modal_eq_nodal_collision)
         grid = small_grid(M, M + 1, impl, *grid.modal_shape)
-        ctx.dist['data_to_xarray:modal==nodal'] += 1
       layers = int(rng.choice([1, 2, 3])) if i >= 3 else [1, 2, 1][i]
+      if i == 3:       # fixed corner case, tried in every run: M=5, L=7 on 10 x 7 nodes, fast layout, two layers
+        grid, layers = sh.Grid(longitude_wavenumbers=5, total_wavenumbers=7, longitude_nodes=10, latitude_nodes=7,
+                               spherical_harmonics_impl=sh.FastSphericalHarmonics), 2
+      ambiguous = grid.modal_shape == grid.nodal_shape
+      if ambiguous:
+        ctx.dist['data_to_xarray:modal==nodal'] += 1
       coords = cs.CoordinateSystem(grid, sc.SigmaCoordinates.equidistant(layers))
       times = None if rng.random() < 0.3 else np.arange(int(rng.integers(1, 4)))
       samples = None if rng.random() < 0.7 else np.arange(int(rng.integers(1, 3)))
@@ -809,6 +905,7 @@ def run(ctx: common.Ctx):
         if ln != layers:
           addl['ens'] = np.arange(ln, dtype=float)
       pre = (() if samples is None else (len(samples),)) + (() if times is None else (len(times),))
+      pnames_d = (() if samples is None else ('sample',)) + (() if times is None else ('time',))
       m, n = grid.modal_shape, grid.nodal_shape
       kinds = {'modal3d': (layers,) + m, 'nodal3d': (layers,) + n, 'surf_modal': (1,) + m, 'surf_nodal': (1,) + n,
                'nodal2d': n, 'modal2d': m, 'scalar': (), 'unknown': (layers + 7,) + n}
@@ -829,10 +926,18 @@ def run(ctx: common.Ctx):
             dict(**inp, ndim=len(full)), impl_s)
         if kind == 'nodal3d' and layers == 1 and st != 'ok':
           single_layer_hit.append(inp)
-        if ambiguous and layers != 1 and kind == 'modal3d':
-          # domain statement, replayed on the implementation: shape matching cannot tell the two bases apart
-          ctx.expect(st == 'ok' and ds['v'].dims[-2:] == ('lon', 'lat'), 'dims-modal-eq-nodal',
-                     'modal_shape == nodal_shape: 3-d modal data expected to be labelled (level, lon, lat)', inp)
+        # the property itself: the right dimension names for every kind of variable
+        want = want_dims(kind, layers, pnames_d)
+        if want is not None and not (layers == 1 and kind in ('nodal3d', 'surf_nodal')):
+          got = tuple(ds['v'].dims) if st == 'ok' else None
+          if ambiguous:
+            # modal_shape == nodal_shape: measured, reported as the known finding when the real code mislabels
+            if got != want:
+              modal_eq_nodal_hit.append((kind, got))
+              ctx.fail('modal-equals-nodal-shape', modal_eq_nodal_msg(grid, layers, f'{kind} data', full, got, want, st), inp)
+          else:
+            ctx.expect(got == want, 'xarray-dims', f'data_to_xarray labels {kind} data of shape {list(full)} '
+                       f'{got} ({st}), expected {want}', inp)
   if single_layer_hit:
     ctx.fail('single-layer-nodal-3d',
              'data_to_xarray raises ValueError for 3-d nodal data (1, lon, lat) of a single-layer coordinate system: '
@@ -931,6 +1036,85 @@ def run(ctx: common.Ctx):
     a, b = np.asarray(a), np.asarray(b)
     return a.shape == b.shape and a.dtype == b.dtype and a.tobytes() == b.tobytes()
 
+  def modal_eq_nodal_probe(coords, inp):
+    """modal_shape == nodal_shape: what the real code does with a modal state and with nodal data.  Wrong names are
+    reported under `modal-equals-nodal-shape` (only when the real code really gives them); the values must still
+    read back bit-identical (the readers of primitive-equation states do not use the names)."""
+    g, layers = coords.horizontal, coords.vertical.layers
+    shp = tuple(g.modal_shape)
+    assert shp == tuple(g.nodal_shape)
+    times2 = np.arange(2) * 0.5
+    pinp = dict(**inp, grid=grid_args(g), modal_shape=list(shp), nodal_shape=list(g.nodal_shape))
+    ctx.case(('modal==nodal', repr(pinp)), nontrivial=True,
+             sample=dict(op='data_to_xarray on modal_shape == nodal_shape', grid=grid_args(g), layers=layers))
+    # (a) a modal primitive-equation state
+    state = pe.State(vorticity=special(arr((2, layers) + shp)), divergence=arr((2, layers) + shp),
+                     temperature_variation=arr((2, layers) + shp), log_surface_pressure=special(arr((2, 1) + shp)),
+                     tracers={'q': arr((2, layers) + shp)})
+    data = state.asdict()
+    want3 = ('time', 'level') + MODAL_NAMES
+    wants = ('time', 'level' if layers == 1 else 'surface') + MODAL_NAMES
+    st, ds = real(lambda: xu.data_to_xarray(data, coords=coords, times=times2))
+    if st != 'ok':
+      ctx.fail('modal-equals-nodal-shape',
+               modal_eq_nodal_msg(g, layers, 'a modal primitive_equations.State (vorticity, …, log_surface_pressure)', (2, layers) + shp,
+                                  None, want3, st), pinp)
+    else:
+      got = {k: tuple(ds[k].dims) for k in ds}
+      wrong = {k: v for k, v in got.items() if v != (wants if k == 'log_surface_pressure' else want3)}
+      ctx.dist[f'coords:modal==nodal:modal-state:{"mislabelled" if wrong else "right names"}'] += 1
+      if wrong:
+        k0 = 'vorticity' if 'vorticity' in wrong else sorted(wrong)[0]
+        ctx.fail('modal-equals-nodal-shape',
+                 modal_eq_nodal_msg(g, layers, f'the modal field {k0!r} of a primitive_equations.State',
+                                    np.shape(data[k0]), wrong[k0], wants if k0 == 'log_surface_pressure' else want3, st)
+                 + f'; all wrong names: {wrong}', pinp)
+      with ctx.impl('xarray-roundtrip', pinp):
+        back = xu.xarray_to_primitive_eq_data(ds, tracers_to_include=['q'])
+        ok = all(same_bits(back[k], data[k]) for k in ['vorticity', 'divergence', 'temperature_variation',
+                                                        'log_surface_pressure']) and same_bits(back['tracers']['q'], data['tracers']['q'])
+        ctx.expect(ok, 'xarray-roundtrip', 'state read back from the dataset is not bit-identical '
+                   '(modal_shape == nodal_shape)', pinp)
+        why = same_discretisation(coords, xu.coordinate_system_from_attrs(ds.attrs))
+        ctx.expect(why is None, 'attrs-roundtrip', f'coordinate system from dataset attrs differs: {why}', pinp)
+    # (b) nodal data: a surface field (time, lon, lat) and, when layers != 1, a 3-d field
+    dd = {'sp': special(arr((2,) + shp))}
+    wantd = {'sp': ('time',) + NODAL_NAMES}
+    if layers != 1:   # (layers == 1: the 3-d nodal field is the other known finding)
+      dd['u'] = special(arr((2, layers) + shp))
+      wantd['u'] = ('time', 'level') + NODAL_NAMES
+    st, ds5 = real(lambda: xu.data_to_xarray(dd, coords=coords, times=times2))
+    if st != 'ok':
+      ctx.fail('modal-equals-nodal-shape',
+               modal_eq_nodal_msg(g, layers, 'nodal surface data (time, lon, lat)', (2,) + shp, None, wantd['sp'], st),
+               pinp)
+    else:
+      wrong = {k: tuple(ds5[k].dims) for k in dd if tuple(ds5[k].dims) != wantd[k]}
+      ctx.dist[f'coords:modal==nodal:nodal-data:{"mislabelled" if wrong else "right names"}'] += 1
+      if wrong:
+        k0 = sorted(wrong)[0]
+        st6, _ = real(lambda: xu.xarray_to_data_dict(ds5))
+        ctx.fail('modal-equals-nodal-shape',
+                 modal_eq_nodal_msg(g, layers, f'the nodal field {k0!r}', np.shape(dd[k0]), wrong[k0], wantd[k0], st)
+                 + f'; xarray_to_data_dict of that dataset: {st6}', pinp)
+      else:
+        with ctx.impl('xarray-roundtrip', pinp):
+          b5 = xu.xarray_to_data_dict(ds5)
+          ctx.expect(same_bits(b5['sp'], dd['sp'][:, None]) and ('u' not in dd or same_bits(b5['u'], dd['u'])),
+                     'xarray-roundtrip', 'xarray_to_data_dict(data_to_xarray(d)) differs from d', pinp)
+
+  # fixed corner case, tried in every run (review C19.2): M=5, L=7 on 10 x 7 nodes, fast layout, two sigma layers
+  g57 = sh.Grid(longitude_wavenumbers=5, total_wavenumbers=7, longitude_nodes=10, latitude_nodes=7,
+                spherical_harmonics_impl=sh.FastSphericalHarmonics)
+  if g57.modal_shape == g57.nodal_shape:
+    for nl in (2, 1):
+      modal_eq_nodal_probe(cs.CoordinateSystem(g57, sc.SigmaCoordinates.equidistant(nl)),
+                           dict(horizontal={f: getattr(g57, f) for f in H_FIELDS},
+                                impl='FastSphericalHarmonics', vertical='sigma', layers=nl))
+  else:
+    ctx.notes.append(f'modal==nodal corner case: Grid(5, 7, 10, 7, fast) now has modal_shape {g57.modal_shape} != '
+                     f'nodal_shape {g57.nodal_shape}')
+
   names_pool = ['q', 'specific_humidity', 'cloud', 'tr_1', 'Ω', 'a b', 'x.y', 'level_', 'o3']
   tmpdir = tempfile.mkdtemp(prefix='c19_', dir=common.WORK)
   for i in range(ctx.n(60, 600)):
@@ -947,14 +1131,28 @@ def run(ctx: common.Ctx):
         back = xu.coordinate_system_from_attrs(coords.asdict())
         why = same_discretisation(coords, back)
         ctx.expect(why is None, 'attrs-roundtrip', f'coordinate_system_from_attrs(coords.asdict()) differs: {why}', inp)
+      # (1b) reconstruction does not depend on what was reconstructed before: a second coordinate system with the
+      #      same sizes and spacing but another longitude offset / radius, right after the first one, then the first
+      #      one again (deterministic in every run, not left to a chance collision of two random grids)
+      if i < 12 or i % 5 == 0:
+        h = coords.horizontal
+        twin_h = sh.Grid(**{**{f: getattr(h, f) for f in H_FIELDS},
+                            'longitude_offset': h.longitude_offset + 0.05, 'radius': 2.5 * h.radius},
+                         spherical_harmonics_impl=h.spherical_harmonics_impl)
+        twin = cs.CoordinateSystem(twin_h, coords.vertical)
+        tinp = dict(**inp, twin=dict(longitude_offset=twin_h.longitude_offset, radius=twin_h.radius))
+        with ctx.impl('attrs-roundtrip', tinp):
+          why2 = same_discretisation(twin, xu.coordinate_system_from_attrs(twin.asdict()))
+          why3 = same_discretisation(coords, xu.coordinate_system_from_attrs(coords.asdict()))
+          ctx.expect(why2 is None and why3 is None, 'attrs-roundtrip',
+                     'coordinate_system_from_attrs depends on the coordinate systems reconstructed before (same sizes, '
+                     f'other offset / radius): twin: {why2}; first one again: {why3}', tinp)
       if coords.horizontal.modal_shape == coords.horizontal.nodal_shape:
-        # outside the domain of the labelling claim: axes are matched by shape, so with modal_shape == nodal_shape
-        # one basis takes the names of the other (theorem inferDims_modal_eq_nodal_collision, correspondence in D)
-        ctx.dist['coords:modal==nodal (labelling not claimed)'] += 1
-        if not any(n.startswith('domain: modal_shape == nodal_shape') for n in ctx.notes):
-          ctx.notes.append('domain: modal_shape == nodal_shape (e.g. M=5, L=7, 10x7 nodes, FastSphericalHarmonics) is '
-                           'outside the labelling / read-back claim: data_to_xarray matches axes by shape and labels '
-                           '3-d modal data (level, lon, lat) and 2-d nodal data as modal, silently')
+        # axes are matched by shape, so with modal_shape == nodal_shape one basis takes the names of the other
+        # (theorem inferDims_modal_eq_nodal_collision, correspondence in D): measured on the real code and reported
+        # as the known finding `modal-equals-nodal-shape` whenever the names are wrong
+        ctx.dist['coords:modal==nodal'] += 1
+        modal_eq_nodal_probe(coords, inp)
         continue
       # (2) model state -> dataset -> state
       nt = int(rng.integers(1, 4))
